@@ -79,6 +79,8 @@ def check_cases(cases: list[dict], rep: Report, known: dict) -> None:
                     heap_req = f"heap at {etxt} {store} {op['p']}"
             j = op.get("j")
             src = hist.pobj_src.get(j) if j is not None else None
+            if op["op"] == "ld_query":
+                src = hist.ld_src.get(op.get("k")) if op.get("k") in hist.lds else None
             before = hist.pobj_expr_called.get(j, False) if j is not None else False
             with common.WarnCatcher() as w1:
                 got = hist.do(op)
